@@ -89,7 +89,7 @@ func c05NoTable(tier string, id int, r *rand.Rand, o *srchOut) {
 	thorough := tier == "thorough"
 	size := c05Size(r)
 	sc := srchCfg{size: size, depth: c05Depths(r, size, thorough), evk: r.Intn(2), nosort: r.Intn(2) == 0, nonull: true, noreduce: true,
-		dedup: r.Intn(3) == 0, tableMem: -1}
+		dedup: r.Intn(8) == 0, tableMem: -1}
 	ps := srchGame(r, size)
 	i := srchPick(r, ps)
 	if i < 0 {
